@@ -183,6 +183,14 @@ def comm_pairs():
 
 
 def free_h(hk):
+    if hk.endswith("-hop"):          # uniform hopping: non-diagonal with a (d-1)-fold degenerate eigenvalue
+        d = int(hk[1])
+        h = 0.6 * (np.ones((d, d)) - np.eye(d)).astype(complex)
+        if hk.startswith("d3c"):     # complex ring with a degenerate pair
+            ph = np.exp(2j * np.pi / 3)
+            h = 0.6 * np.array([[0, ph, np.conj(ph)], [np.conj(ph), 0, ph], [ph, np.conj(ph), 0]])
+            h = (h + h.conj().T) / 2
+        return h
     if hk == "d2-real":
         return 0.5 * M.SX + 0.3 * M.SZ
     if hk == "d2-complex":
@@ -197,6 +205,7 @@ def free_h(hk):
 FREE_PAIRS = [("d2-real", (1, -1)), ("d2-real", (1, 0)), ("d2-complex", (1, -1)), ("d2-complex", (1, 0)),
               ("d3-real", (1, 0, -1)), ("d3-real", (1, 1, 0)), ("d3-complex", (1, 0, -1)), ("d3-complex", (1, 1, 0)),
               ("d4-complex", (2, 1, 0, -1))]
+FREE_PAIRS = FREE_PAIRS + [("d3-hop", (1, 0, -1)), ("d3c-hop", (1, 1, 0)), ("d4-hop", (2, 1, 0, -1))]
 FREE_PAIRS_T = FREE_PAIRS + [("d4-real", (2, 1, 0, -1)), ("d4-complex", (1, 1, 0, 0))]
 
 
@@ -327,8 +336,15 @@ def case_a(o, hk, sd, temp, alpha, n, eps, offset=0.0):
 SHIFT_RATIOS = [-20.0, 8.0, 14.0, 18.0, 22.0, 26.0, 30.0]      # energy offset / T
 
 
+LONG_N = 300            # more imaginary-time steps than any internal length limit (the Matsubara kernel is periodic:
+#                         the most distant steps couple as strongly as neighbours)
+
+
 def groups_s(tier):
     out = []
+    for (o, hk), temp in itertools.product([((1, -1), "diag"), ((1, 0, -1), "diag")], [0.3, 1.0]):
+        out.append({"fam": "S", "o": list(o), "hk": hk, "sd": "ohmic-exp", "T": temp, "alpha": 0.4, "n": LONG_N, "eps": 1e-6,
+                    "ratio": 0.0})
     for (o, hk), temp in itertools.product([((1, -1), "diag"), ((1, 0, -1), "diag"), ((1, 1, 0), "block-complex")], [0.3, 1.0]):
         for n, eps, ratio in itertools.product([3, 5], [1e-4, 1e-6, 1e-9], SHIFT_RATIOS):
             out.append({"fam": "S", "o": list(o), "hk": hk, "sd": "ohmic-exp", "T": temp, "alpha": 0.4, "n": n, "eps": eps,
@@ -345,6 +361,8 @@ def work_s(g):
 
 
 def cls_s(g, sig):
+    if g["n"] >= LONG_N:
+        return f"commuting|H={g['hk']}|n_steps={g['n']}|{sig}"
     where = "negative" if g["ratio"] < 0 else ("below-ln(1/epsrel)" if g["ratio"] < -np.log(g["eps"]) else "above-ln(1/epsrel)")
     return f"commuting|H={g['hk']}+energy-offset({where})|{sig}"
 
